@@ -222,6 +222,9 @@ def run(ctx):
     ctx.tlc("MC_RoundTrip", "run.cfg", extra_files={"run.cfg": rt.cfg_text(max_fields=1, faults=FAULTS, cfgs="AllCfgs", invariants=INVS)},
             label="MC_RoundTrip injections x 8 option sets", timeout=3000)
     ctx.exhaustive = True
+    from .. import xmlshape_bind
+
+    xmlshape_bind.run_matrix(ctx, "C10")   # spec/XmlShape.tla: field kinds x XML shapes x positions
     cases = rt.generate(ctx, label="Gen_RoundTrip injections 1 field", max_fields=1, faults=FAULTS, cfgs="AllCfgs", limit=ctx.pick(3000, None))
     cases += rt.generate(ctx, label="Gen_RoundTrip injections 2 fields (simulate)", max_fields=2, faults=FAULTS, cfgs="AllCfgs",
                          simulate=ctx.pick(600, 20000))
